@@ -445,7 +445,9 @@ def native_sample(payload):
                             EInum_max=(scale * nx[0] if nx[0] > 0 else nx[0]), EInum_max_thrust=nx[1])
         rnd_et, bpr = rnd.choice(['TF', 'MTF']), rnd.uniform(0.3, 11.0)
         k = rnd.randint(3, 12)
-        alt = np.array(sorted(rnd.uniform(500.0, 12500.0) for _ in range(k)))
+        # regional flights cruise low (FL100 is 3 km): a third of the profiles stay below 4 km, some below 3 km
+        top = rnd.choice([12500.0, 12500.0, 4000.0, 2800.0])
+        alt = np.array(sorted(rnd.uniform(500.0, top) for _ in range(k)))
         if rnd.random() < 0.5:
             alt = np.concatenate([alt, alt[::-1][1:]])
         if rnd.random() < 0.3:
